@@ -15,6 +15,7 @@ import (
 	"reflect"
 	"strconv"
 	"strings"
+	"sync"
 	"testing"
 	"testing/iotest"
 
@@ -614,3 +615,64 @@ func propCustomValidator(t *rapid.T) {
 }
 
 func TestPropCustomValidator(t *testing.T) { rapid.Check(t, propCustomValidator) }
+
+// propConcurrentBinds: binds running at the same time (a server binds in every request goroutine).  Each bind gets its
+// own request's value, in every format: nothing is shared between binds.
+func propConcurrentBinds(t *rapid.T) {
+	ev.Case()
+	binding.ResetValidator()
+	defer binding.ResetValidator()
+	g := rapid.IntRange(2, 6).Draw(t, "goroutines")
+	per := rapid.IntRange(3, 12).Draw(t, "bindsEach")
+	format := rapid.SampledFrom(formats).Draw(t, "format")
+	type job struct {
+		p    Payload
+		body []byte
+		ct   string
+	}
+	jobs := make([][]job, g)
+	for i := range jobs {
+		for k := 0; k < per; k++ {
+			p := genPayload(t, "p.")
+			if p.Name == "" {
+				p.Name = "n"
+			}
+			// bodies of very different lengths: a buffer that is shared shows
+			p.Tags = append(p.Tags, strings.Repeat("x", (i*per+k)%7*40))
+			b, ct := encode(p, format)
+			jobs[i] = append(jobs[i], job{p, b, ct})
+		}
+	}
+	errs := make([]string, g)
+	var wg sync.WaitGroup
+	for i := range jobs {
+		wg.Add(1)
+		go func(i int) {
+			defer wg.Done()
+			for _, j := range jobs[i] {
+				req := httptest.NewRequest("POST", "/x", bytes.NewReader(j.body))
+				req.Header.Set("Content-Type", j.ct)
+				var got Payload
+				if err := binding.Auto(req, &got); err != nil {
+					errs[i] = fmt.Sprintf("bind of a well-formed %s body failed: %v (body %q)", format, err, j.body)
+					return
+				}
+				if !reflect.DeepEqual(got.norm(), j.p.norm()) {
+					errs[i] = fmt.Sprintf("bound %+v, the request carried %+v (%s)", got.norm(), j.p.norm(), format)
+					return
+				}
+			}
+		}(i)
+	}
+	wg.Wait()
+	ev.Eval()
+	for _, e := range errs {
+		if e != "" {
+			t.Fatalf("%d goroutines binding at the same time: %s", g, e)
+		}
+	}
+	ev.Class("concurrent-binds:" + format)
+	ev.NonTrivial(fmt.Sprint(g, per, format, jobs[0][0].p), func() string { return fmt.Sprintf("%d goroutines x %d %s binds", g, per, format) })
+}
+
+func TestPropConcurrentBinds(t *testing.T) { rapid.Check(t, propConcurrentBinds) }
